@@ -37,7 +37,7 @@ Section G.
       + now rewrite (nth_error_nth _ _ _ E).
       + rewrite nth_overflow by now apply nth_error_None. apply tget_dflt.
     - destruct I1 as [|j I1]; [discriminate|]. cbn [app length] in *. apply has_shape_cons in H as (l & -> & _ & Hf).
-      cbn [tindex tget]. rewrite nth_error_map. destruct (nth_error l j) as [u|] eqn:E; [|reflexivity]. cbn.
+      cbn [tindex tget]. rewrite nth_error_map. destruct (nth_error l j) as [u|] eqn:E; [|reflexivity]. cbn [option_map].
       apply IH; [|lia]. rewrite Forall_forall in Hf. apply Hf. eapply nth_error_In; eauto.
   Qed.
 
@@ -49,7 +49,7 @@ Section G.
     - destruct I1; [|discriminate]. cbn [app length] in *. apply has_shape_cons in H as (l & -> & _ & _).
       cbn [tslice tget]. rewrite nth_error_firstn_skipn. now destruct (j <? b - a).
     - destruct I1 as [|i I1]; [discriminate|]. cbn [app length] in *. apply has_shape_cons in H as (l & -> & _ & Hf).
-      cbn [tslice tget]. rewrite nth_error_map. destruct (nth_error l i) as [u|] eqn:E; cbn; [|now destruct (j <? b - a)].
+      cbn [tslice tget]. rewrite nth_error_map. destruct (nth_error l i) as [u|] eqn:E; cbn [option_map]; [|now destruct (j <? b - a)].
       apply IH; [|lia]. rewrite Forall_forall in Hf. apply Hf. eapply nth_error_In; eauto.
   Qed.
 
@@ -100,7 +100,7 @@ Section G.
     induction pre as [|p pre IH]; intros t I1 I2 H L.
     - destruct I1; [|discriminate]. reflexivity.
     - destruct I1 as [|i I1]; [discriminate|]. cbn [app length] in *. apply has_shape_cons in H as (l & -> & _ & Hf).
-      cbn [texpand tget]. rewrite nth_error_map. destruct (nth_error l i) as [u|] eqn:E; [|reflexivity]. cbn.
+      cbn [texpand tget]. rewrite nth_error_map. destruct (nth_error l i) as [u|] eqn:E; [|reflexivity]. cbn [option_map].
       apply IH; [|lia]. rewrite Forall_forall in Hf. apply Hf. eapply nth_error_In; eauto.
   Qed.
 
@@ -114,7 +114,7 @@ Section G.
     inversion F as [|? ? Hu F']; subst.
     destruct ts as [|u' ts].
     - cbn [map tcat] in Hs. destruct (texpand (length pre) u) eqn:E; [discriminate|]. injection Hs as <-.
-      cbn in Hj. assert (j = 0) by lia. subst j. rewrite <- E. now apply tget_texpand.
+      cbn in Hj. assert (j = 0) by lia. subst j. rewrite <- E. now apply (tget_texpand pre post).
     - change (tcat (length pre) (map (texpand (length pre)) (u :: u' :: ts))) with
         (match tcat (length pre) (map (texpand (length pre)) (u' :: ts)) with
          | Some r => tcat2 (length pre) (texpand (length pre) u) r | None => None end) in Hs.
@@ -123,7 +123,7 @@ Section G.
       unfold tstack in Hr'. rewrite Er in Hr'. injection Hr' as <-.
       rewrite (tget_tcat2 pre 1 (length (u' :: ts)) post _ _ _ j I1 I2 (texpand_shape pre post u Hu) Sr' Hs L).
       destruct j as [|j].
-      + cbn [Nat.ltb Nat.leb nth]. now apply tget_texpand.
+      + cbn [Nat.ltb Nat.leb nth]. now apply (tget_texpand pre post).
       + replace (S j <? 1) with false by (symmetry; apply Nat.ltb_ge; lia).
         replace (S j - 1) with j by lia. cbn [nth]. apply IH; auto. cbn in Hj |- *. lia.
   Qed.
